@@ -4,6 +4,7 @@ from ..core import *
 from ..runner import Prop, Group
 from . import voting_common as V
 from .c12 import stv_replay
+from . import elicit_common as E
 
 REQ = "From SCK Require Import Voting VoteExt RunVote."
 ORD = V.RULES + ["Copeland"]
@@ -19,10 +20,10 @@ class C11(Prop):
     }
     rule = ("each case = (profile, voter permutation, alternative permutation, rule): the implementation is run on the profile, on the voter-permuted and on the renamed profile; "
             "exhaustive n,m<=3 slice with all permutations; orbit-symmetrised profiles (P together with its image under a transposition, so two alternatives hold equal rank multisets); "
-            "random up to n=30, m=8; rules: five positional rules, Copeland, STV ('first'; neutrality only when no elimination tie), utilitarian (1e-9 relative). "
+            "random up to n=30, m=8; rules: five positional rules, Copeland, STV ('first'; neutrality only when no elimination tie), utilitarian, k-ARV and lambda-PRV behind truthful elicitors (1e-9 relative; m in 2..11, not only powers of two). "
             "Non-trivial = both permutations are not the identity; distinct by input hash")
     trusted_base = ["theorems are about the exact models (Voting.v); the float summation order of numpy is outside the model: the metamorphic oracle runs on the implementation itself",
-                    "k-ARV / lambda-PRV symmetry is exercised through C14-C16's correspondences, not here"]
+                    "k-ARV / lambda-PRV symmetry: metamorphic oracle on the implementation (family 'elicit'); their models are C14-C16's"]
     assumptions = ["profiles are complete and strict; tie_breaker = 'accept' (STV: 'first')"]
 
     def mk(self, fam, rule, P, pv, pa, k=1):
@@ -66,6 +67,16 @@ class C11(Prop):
             if not any(x for row in Vp for x in row if x): continue
             pv = list(range(n)); rng.shuffle(pv); pa = list(range(m)); rng.shuffle(pa)
             yield dict(entry="SocialWelfare.symmetry", family="util", rule="SocialWelfare", method="scf", V=Vp, pv=pv, pa=pa, k=1, zi=True, tb="accept")
+        # the elicitation voting rules (k-ARV, lambda-PRV): utilities behind a truthful elicitor; m deliberately not only powers of two
+        N = 120 if tier == "quick" else 2500
+        for i in range(N):
+            n = rng.randint(2, 7); m = rng.choice([2, 3, 4, 5, 6, 7, 9, 11])
+            rule = ["KARV", "PRV"][i % 2]
+            k = rng.randint(1, min(3, m)) if rule == "KARV" else rng.randint(1, m)
+            P, Vv = E.gen_pair(rng, n, m, rng.choice(["unit", "unit", "skew", "bigint"]), k)
+            pv = list(range(n)); rng.shuffle(pv); pa = list(range(m)); rng.shuffle(pa)
+            yield dict(entry={"KARV": "KARV.symmetry", "PRV": "LambdaPRV.symmetry"}[rule], family="elicit", rule=rule, P=P, V=Vv, pv=pv, pa=pa, k=k,
+                       zi=True, tb="accept", want_out=True, eclass="profile")
 
     def variants(self, case):
         key = "V" if "V" in case else "P"
@@ -75,7 +86,24 @@ class C11(Prop):
         Ma = [[row[pa[j]] for j in range(len(pa))] for row in M]
         return key, Mv, Ma
 
+    def run_elicit(self, case):
+        P, Vv, pv, pa = case["P"], case["V"], case["pv"], case["pa"]
+        def one(P_, V_):
+            o = E.run_rule(dict(case, P=P_, V=V_))
+            if o["status"] != "ok":
+                return o
+            vt = o["vt"]
+            sc = [float(x) for x in vt] if case["rule"] == "PRV" else [float(sum(row[j] for row in vt)) for j in range(len(vt[0]))]
+            out = o["out"]
+            return dict(status="ok", score=sc, out=(out if isinstance(out, list) else [out]))
+        o = one(P, Vv)
+        ov = one([P[i] for i in pv], [Vv[i] for i in pv])
+        oa = one([[row[pa[j]] for j in range(len(pa))] for row in P], [[row[pa[j]] for j in range(len(pa))] for row in Vv])
+        return dict(status=("ok" if all(x["status"] == "ok" for x in (o, ov, oa)) else "err"), base=o, voters=ov, alts=oa)
+
     def run(self, case):
+        if case["family"] == "elicit":
+            return self.run_elicit(case)
         key, Mv, Ma = self.variants(case)
         o = V.run_vote(case)
         ov = V.run_vote(dict(case, **{key: Mv}))
@@ -95,7 +123,7 @@ class C11(Prop):
                 return ("not_neutral", "STV winner %r, after renaming %r (= old %r) although no elimination tie occurs" % (o["out"], oa["out"], pa[oa["out"]]))
             return None
         s, sv, sa = o["score"], ov["score"], oa["score"]
-        exact = case["rule"] != "SocialWelfare"
+        exact = case["rule"] not in ("SocialWelfare", "KARV", "PRV")
         def close(x, y):
             return x == y if exact else abs(x - y) <= 1e-9 * max(abs(x), abs(y))
         if not all(close(x, y) for x, y in zip(s, sv)):
@@ -118,7 +146,7 @@ class C11(Prop):
         return None
 
     def coq(self, case, obs):
-        if case["rule"] == "STV":
+        if case["rule"] in ("STV", "KARV", "PRV"):
             return None
         sc = obs["voters"]["score"]; key, Mv, Ma = self.variants(case)
         if case["rule"] == "SocialWelfare":
